@@ -256,6 +256,12 @@ pub fn gen_names_cases(prop: &str, tier: &str, seed: u64) -> Vec<Vec<String>> {
             if !numbers && r.chance(1, 3) { names.push(format!("{fixed}{sep}{infix}.restart-000{}{sfx}", r.below(3))); }
         }
         if r.chance(1, 2) { names.push(format!("{fixed}{sep}{}{sfx}", sp.cur.clone().unwrap_or("rCURRENT".into()))); }
+        // the zero padding of the index is a minimum width: indices of six and more digits are
+        // files of the family, too (a pure listing question here; what the cleanup makes of them is C07)
+        if numbers && r.chance(1, 4) {
+            names.push(format!("{fixed}{sep}r{}{sfx}", 100_000 + r.below(900_000)));
+            if r.chance(1, 2) { names.push(format!("{fixed}{sep}r{}{sfx}", 1_000_000 + r.below(9_000_000))); }
+        }
         // with a custom current infix: the `rCURRENT` file of an earlier run with the standard naming
         // next to it (a selector may ask for both)
         if sp.cur.is_some() && r.chance(1, 2) { names.push(format!("{fixed}{sep}rCURRENT{sfx}")); }
